@@ -29,6 +29,7 @@ type twoCfg struct {
 	podOnNodeA       bool // A's pod may sit on one of A's nodes (non-empty nodes)
 	affinityFormsB   bool // B's pod may select B through required node affinity (plus a NotIn on A's value)
 	classesA         []int
+	production       bool // the controller is assembled by the real NewController / NewClient (production.go)
 	autoA            bool // A leaves min_nodes/max_nodes out: its bounds are whatever its cloud group reports (also min = max, or 0..0)
 }
 
@@ -126,7 +127,11 @@ func buildTwo(c twoCfg) (*vWorld, int, int) {
 			}
 		}
 	}
-	w.build()
+	if c.production {
+		w.buildProduction()
+	} else {
+		w.build()
+	}
 	if c.trackers {
 		st := w.ctrl.nodeGroups[oa.Name]
 		for _, n := range w.nodes {
@@ -183,11 +188,11 @@ func assertSameCalls(id string, x, y []aws.VerifCall) {
 
 // VerifHarness_C11: dry mode performs no writes, and does not change what
 // happens to the other group.
-// shape: [nodes A, nodes B, dry switch (0 group option, 1 global flag), class menu of A]
+// shape: [nodes A, nodes B, dry switch (0 group option, 1 global flag), class menu of A, controller built by NewController (0/1)]
 func VerifHarness_C11() {
 	nA, nB, global, menu := verifShape(0), verifShape(1), verifShape(2), verifShape(3)
 	classes := [][]int{{tcNone, tcEsc}, {tcNone, tcEsc, tcForce}, {tcNone, tcEscGarbage, tcEscEmpty}}[menu]
-	cfg := twoCfg{pa: "A.", nA: nA, nB: nB, trackers: true, classesA: classes, podOnNodeA: true}
+	cfg := twoCfg{pa: "A.", nA: nA, nB: nB, trackers: true, classesA: classes, podOnNodeA: true, production: verifShape(4) == 1}
 	cfg.dryA, cfg.dryGlobal = global == 0, global == 1
 	w1, a1, b1 := buildTwo(cfg)
 	verifFreezeClock(w1.base+1, 0)
